@@ -12,8 +12,8 @@ SPECS = os.path.join(VERIF, "specs")
 PY = "/venv/bin/python"
 CACHE = os.environ.get("VERIF_CACHE", "/tmp/cffi_verif_cache")
 # evidence of runs against a scratch worktree (mutation experiments) must not overwrite the real one
-EVIDENCE = os.path.join(VERIF, "evidence") if REPO == "/repo" else os.environ.get(
-    "VERIF_EVIDENCE", "/tmp/cffi_verif_evidence_scratch")
+EVIDENCE = os.environ.get("VERIF_EVIDENCE") or (
+    os.path.join(VERIF, "evidence") if REPO == "/repo" else "/tmp/cffi_verif_evidence_scratch")
 NCPU = os.cpu_count() or 4
 
 
